@@ -11,7 +11,11 @@ Inductive hsys_reply :=
 | YScrape (files : list (string * (N * N * N)))
 | YFailure (reason : string).
 
-Inductive hsys_step := YStep (conn : N) (op : option hop) (reply : option (string * hsys_reply)) (closed : bool).
+(* [YReload acl ok]: the access list file was rewritten to [acl] (or to an unreadable text when
+   [ok] = false) and the tracker was sent SIGUSR1: a failed reload keeps the previous list *)
+Inductive hsys_step :=
+| YStep (conn : N) (op : option hop) (reply : option (string * hsys_reply)) (closed : bool)
+| YReload (acl : list N) (ok : bool).
 
 Definition hsys_case : Type := nat * nat * bool * nat * nat * N * acl_mode * list N * list hsys_step.
 
@@ -87,12 +91,13 @@ Definition not_allowed_reason : list N :=
   map (fun a => N.of_nat (Ascii.nat_of_ascii a)) (String.list_ascii_of_string "Info hash not allowed").
 
 Definition http_sys_code_gen (strict : bool) (cut : bool) (c : hsys_case) : N :=
-  let '(sw, k, ka, ms, mp, interval, mode, acl, steps) := c in
-  let fix go (i : N) (r : rstate) (st : list (N * list N)) (l : list hsys_step) : N :=
+  let '(sw, k, ka, ms, mp, interval, mode, acl0, steps) := c in
+  let fix go (i : N) (r : rstate) (st : list (N * list N)) (acl : list N) (l : list hsys_step) : N :=
     match l with
     | [] => 0
+    | YReload acl' ok :: t => go (N.succ i) r st (if ok then acl' else acl) t
     | YStep conn None reply _ :: t =>
-        (match reply with None => go (N.succ i) r (set_prev conn http_RESPONSE_HEADER_B st) t | Some _ => N.succ i end)
+        (match reply with None => go (N.succ i) r (set_prev conn http_RESPONSE_HEADER_B st) acl t | Some _ => N.succ i end)
     | YStep conn (Some op) None _ :: _ => N.succ i
     | YStep conn (Some op) (Some (raw, y)) closed :: t =>
         let body := body_of y in
@@ -108,12 +113,12 @@ Definition http_sys_code_gen (strict : bool) (cut : bool) (c : hsys_case) : N :=
         then go (N.succ i) (if forbidden then r else fst (hr_step r op))
                 (set_prev conn (if closed then http_RESPONSE_HEADER_B
                                 else length_field http_RESPONSE_HEADER_A http_RESPONSE_HEADER_B http_RESPONSE_HEADER_C
-                                                  (N.to_nat http_RESPONSE_BUFFER_SIZE) body) st) t
+                                                  (N.to_nat http_RESPONSE_BUFFER_SIZE) body) st) acl t
         else N.succ i
     end in
-  let bad := go 0 rinit [] steps in
+  let bad := go 0 rinit [] acl0 steps in
   let multi := existsb (fun s => match s with YStep _ (Some (HScrape _ hs)) _ _ => Nat.ltb 1 (length (nodup Nat.eq_dec (map (route k) hs))) | _ => false end) steps in
-  let unanswered := existsb (fun s => match s with YStep _ None _ _ => true | _ => false end) steps in
+  let unanswered := existsb (fun s => match s with YStep _ None _ _ => true | YReload _ _ => true | _ => false end) steps in
   bad * 4 + (if multi || unanswered then 3 else 1).
 
 Definition http_sys_code := http_sys_code_gen false http_scrape_cut_before_split.
